@@ -32,6 +32,9 @@ def run_basis(ctx, states):
     for st in states:
         cfg, obs = st['cfg'], st['obs']
         gens = np.stack([gm(g) for g in obs['gens']])
+        pert = [list(k) for k in obs.get('pert') or []]
+        if pert:
+            gens = gens + 2.0 ** -obs['e'] * np.stack([gm(k) for k in pert])          # nearly structured: exact in float64 (small integers, dyadic factor)
         if obs['label'] in ('R', 'R_T') or (obs['label'] in ('C', 'C_T') and np.abs(gens.imag).max() == 0):
             arr = gens.real.copy()
         else:
@@ -40,7 +43,7 @@ def run_basis(ctx, states):
         data = dict(cls=cfg['cls'], n=cfg['n'], seed=cfg['s'], generators=len(gens))
         try:
             basis, compl, label = get_matrix_orthogonal_basis(arr, obs['field'])
-            ev.append(dict(op='basis', gens=obs['gens'], field=obs['field'], label=str(label), nbasis=int(len(basis)), ncompl=int(len(compl)),
+            ev.append(dict(op='basis', gens=obs['gens'], pert=pert, e=obs.get('e', 0), field=obs['field'], label=str(label), nbasis=int(len(basis)), ncompl=int(len(compl)),
                            basis=rint(basis), compl=rint(compl), scale=SCALE, tol=TOL_GRAM, rtol=TOL_RES))
             meta.append(dict(data, expected=dict(label=obs['label'], dim=obs['dim'], ambient=obs['ambient']), got=dict(label=str(label), nbasis=int(len(basis)), ncompl=int(len(compl)))))
         except Exception as ex:
